@@ -181,22 +181,29 @@ class SimProtoExporter:
 
         # Sort out the output
         output = noise.output
+        def name_of(x) -> str:
+            # The name of a single-ended output: given as such, or that of a named connectable (a Signal, generally)
+            if isinstance(x, str):
+                return x
+            name = getattr(x, "name", None) if is_connectable(x) else None
+            if not isinstance(name, str):
+                raise ValueError(f"Invalid Noise Output: {x}")
+            return name
+
         if isinstance(output, tuple):
             if len(output) != 2:
                 raise ValueError(f"Invalid Noise Output: {output}")
-            if any(not is_connectable for x in output):
-                raise ValueError(f"Invalid Noise Output: {output}")
-            output_p, output_n = output[0].name, output[1].name
+            output_p, output_n = name_of(output[0]), name_of(output[1])
 
         elif isinstance(output, BundleInstance):
-            # Allow for `Diff` bundles
-            if output.bundle is not Diff:
+            # Allow for `Diff` bundles, by the names their `p` and `n` are flattened to
+            if output.of is not Diff:
                 raise ValueError(f"Invalid Noise Output: {output}")
-            output_p, output_n = output.p.name, output.n.name
+            output_p, output_n = f"{output.name}_p", f"{output.name}_n"
 
         elif is_connectable(output):
             # Single-ended Signal output
-            output_p, output_n = output.name, ""
+            output_p, output_n = name_of(output), ""
 
         elif isinstance(output, str):
             # Single-ended Signal output
